@@ -159,6 +159,26 @@ func checkC08(c *core.Ctx) {
 		probes = append(probes, probe{fmt.Sprintf("rest-%d-beats", beats), model.Piece{Inst: []model.Instance{{Values: []model.Frac{{Num: beats, Den: 1}}}, {Chord: ch(), Values: one()}}}, model.Flags{}})
 		probes = append(probes, probe{fmt.Sprintf("trailing-rest-%d-beats", beats), model.Piece{Inst: []model.Instance{{Chord: ch(), Values: one()}, {Values: []model.Frac{{Num: beats, Den: 1}}}}}, model.Flags{}})
 	}
+	// an over-long silence whose delta time would land on a text event (text, lyric, marker of the next instance, on a
+	// chord or on a rest), in one rest or accumulated over several, on one track and on several
+	for _, kind := range []string{"txt", "lic", "mrk"} {
+		for k, rests := range [][]uint64{{279621}, {300000}, {200000, 200000}, {100000, 100000, 100000}, {1 << 33}} {
+			var in []model.Instance
+			if k%2 == 1 {
+				in = append(in, model.Instance{Chord: ch(), Values: one()})
+			}
+			for _, b := range rests {
+				in = append(in, model.Instance{Values: []model.Frac{{Num: b, Den: 1}}})
+			}
+			withText := model.Instance{Chord: ch(), Values: one(), Meta: map[string]string{kind: "after the silence"}}
+			if k >= 3 {
+				withText.Chord = nil
+			}
+			in = append(in, withText, model.Instance{Chord: ch(), Values: one()})
+			probes = append(probes, probe{fmt.Sprintf("silence-%v-beats-before-%s", rests, kind), model.Piece{Inst: in}, model.Flags{}})
+			probes = append(probes, probe{fmt.Sprintf("silence-%v-beats-before-%s-track%d", rests, kind, 2+k), model.Piece{Inst: in}, model.Flags{Track: 2 + k}})
+		}
+	}
 	// many long instances: each delta small, the total beyond 2^28 (legal for a file: only single deltas are bounded)
 	{
 		var p model.Piece
